@@ -24,7 +24,7 @@ def calls_path(body, needle):
 def is_clock_reader(body):
     """a body that directly calls libc's clock_gettime"""
     for _, t, fn in body.calls():
-        if fn and fn.get('crate') == 'libc' and fn.get('name') == 'clock_gettime':
+        if fn and fn.get('name') == 'clock_gettime' and fn.get('crate') in ('libc', 'nix'):
             return True
     return False
 
@@ -134,6 +134,14 @@ def lin_time(v):
         if op == 'ts_milliseconds' and psi.is_int_const(a[0]):
             return Lin({}, a[0][1] * 1_000_000)
         if op == 'ts_microseconds' and psi.is_int_const(a[0]):
+            return Lin({}, a[0][1] * 1_000)
+        if op == 'ts_from_duration':
+            return lin_time(a[0])
+        if op == 'dur_new' and psi.is_int_const(a[0]) and psi.is_int_const(a[1]):
+            return Lin({}, a[0][1] * 1_000_000_000 + a[1][1])
+        if op == 'dur_from_nanos' and psi.is_int_const(a[0]):
+            return Lin({}, a[0][1])
+        if op == 'dur_from_micros' and psi.is_int_const(a[0]):
             return Lin({}, a[0][1] * 1_000)
         if op == 'dur_from_secs' and psi.is_int_const(a[0]):
             return Lin({}, a[0][1] * 1_000_000_000)
@@ -520,6 +528,53 @@ def segment_paths_used(fb):
                                 used.setdefault(crate, set()).add(s_)
         return {k: (sorted(v)[0] if len(v) == 1 else 'several: %s' % sorted(v)) for k, v in used.items()}
     return _memo(fb, 'segment_paths_used', find)
+
+
+PTR_ADVANCE = ('::add', '::byte_add', '::offset', '::byte_offset', '::wrapping_add', '::wrapping_byte_add')
+
+
+def ptr_advance_bytes(fb, ef):
+    """byte distance of a raw-pointer advance effect (`p.add(n)`, `p.byte_add(n)`, `p.offset(n)`): n x size_of(pointee)
+    for the element-wise forms; None when it is not such a call or not constant"""
+    nm = ef['callee']
+    if not (nm.startswith('std::ptr::') and nm.endswith(PTR_ADVANCE)) or len(ef['args']) < 2 or not psi.is_int_const(ef['args'][1]):
+        return None
+    n = ef['args'][1][1]
+    if 'byte' in nm.split('::')[-1]:
+        return n
+    body = fb.body(ef['site'][0])
+    targs = (ef.get('fn') or {}).get('targs') or []
+    if body is None or not targs:
+        return None
+    t = body.crate.types[targs[0]]
+    if t.get('k') in ('int', 'uint'):
+        return n * (t['bits'] // 8)
+    if t.get('k') == 'bool':
+        return n
+    if t.get('k') == 'adt':
+        a = body.crate.adts.get(t['s'])
+        if a and 'size' in a:
+            return n * int(a['size'])
+    return None
+
+
+def c_string_literals(v):
+    """C-string literals (text including the trailing NUL) found in a term: `"open\\0"` string constants, `b"open\\0"`
+    byte-string constants (a reference to constant bytes) and literal byte arrays"""
+    out = []
+    for y in psi.walk(v):
+        if y[0] == 'c' and isinstance(y[1], tuple) and y[1][0] == 's' and y[1][1].endswith('\0'):
+            out.append(y[1][1])
+        elif y[0] == 'ref' and y[1][0][0] == 'K' and isinstance(y[1][0][1], str):
+            try:
+                raw = bytes.fromhex(y[1][0][1])
+            except ValueError:
+                continue
+            if raw.endswith(b'\0') and 1 < len(raw) < 64:
+                out.append(raw.decode('latin-1'))
+        elif y[0] == 'agg' and y[2] is None and y[3] and all(psi.is_int_const(e) and 0 <= e[1] < 256 for e in y[3]) and y[3][-1][1] == 0 and 1 < len(y[3]) < 64:
+            out.append(bytes(e[1] for e in y[3]).decode('latin-1'))
+    return out
 
 
 _CALLERS = [None, None]
